@@ -331,6 +331,15 @@ func VerifC02Link(v *verifrt.T) {
 	k.SetPermissions(security.AllowReadWrite)
 	k.SetTarget("a/")
 	name := e.ciph.add(k)
+	// the key the link is made with may be publish-only: the shortcut still exists (it is the
+	// publisher's), only the automatic subscription needs read
+	canRead := v.Bool("link-key-can-read")
+	linkKey := name
+	if !canRead {
+		wk := append(security.Key(nil), k...)
+		wk.SetPermissions(security.AllowWrite)
+		linkKey = e.ciph.add(wk)
+	}
 	a, asock := hconn(e.svc, 0)
 	b, bsock := hconn(e.svc, 1)
 	c, _ := hconn(e.svc, 2)
@@ -346,7 +355,7 @@ func VerifC02Link(v *verifrt.T) {
 	for _, ch := range alias {
 		v.Assume((ch >= 'a' && ch <= 'z') || (ch >= '0' && ch <= '9'))
 	}
-	req := link.Request{Name: string(alias), Key: name, Channel: linkChannel, Subscribe: ownerSubscribes}
+	req := link.Request{Name: string(alias), Key: linkKey, Channel: linkChannel, Subscribe: ownerSubscribes}
 	var payload []byte
 	if v.Symbolic() {
 		hLinkReq = req
@@ -362,7 +371,7 @@ func VerifC02Link(v *verifrt.T) {
 	v.Assert(len(bsock.writes) == 1, "C02.link.delivered-once")
 	// the owner hears its own message exactly when it subscribed and did not exclude itself
 	wantOwn := 0
-	if ownerSubscribes && !me0 {
+	if ownerSubscribes && !me0 && canRead {
 		wantOwn = 1
 	}
 	v.Assert(len(asock.writes) == wantOwn, "C02.link.options-of-the-linked-channel-apply")
